@@ -139,7 +139,15 @@ impl<'t, 'd> Pr<'t, 'd> {
                 self.exprs(G::Sp, values);
             }
             Stmt::CompoundAssign { target, op, value } => {
-                self.target(g, target, true);
+                if self.opt(|o| o.plain_compound_targets) {
+                    // the leading gap keeps its liberties, the target itself is written plainly
+                    self.gap(g, "");
+                    self.quiet += 1;
+                    self.target(G::Tight, target, true);
+                    self.quiet -= 1;
+                } else {
+                    self.target(g, target, true);
+                }
                 let sym = format!("{}=", op.symbol());
                 self.tok(G::Sp, &sym);
                 self.expr(G::Sp, value);
